@@ -280,8 +280,14 @@ class Fn:
             return INT
         if t in NAT_TYPES:
             return NAT
-        if t == "double" or t == "float":
+        if t == "double":
             return DBL
+        if t == "float":
+            # single precision is NOT the carrier R: treating it as `double` would turn static_cast<float> into the identity.
+            # A Parser subclass that models the conversion explicitly may set `_float_ok` around the places it handles.
+            if getattr(self, "_float_ok", False):
+                return DBL
+            raise self.R("type `float` is outside the fragment (single precision is not the carrier R)")
         if t == "bool":
             return BOOL
         if t == "char":
